@@ -45,11 +45,11 @@ class LinRef:
             self.net.append(c)
         g = lm["growth"]
         self.n_vol_events = 1 if g["kind"].startswith("event") else 0
-        dv = lm["division"]
+        dv = lm.get("division") or {"kind": "none"}
         self.div_rules = [dv] if dv["kind"].startswith("rule") else []
         self.div_events = ([dv] if dv["kind"] == "event" else []) + ([lm["division2"]] if lm.get("division2") else [])
         # splitter of each division event, in event order
-        self.event_splitters = ([lm["splitter"]] if dv["kind"] == "event" else []) + ([lm["splitter2"]] if lm.get("division2") else [])
+        self.event_splitters = ([lm.get("splitter")] if dv["kind"] == "event" else []) + ([lm["splitter2"]] if lm.get("division2") else [])
         de = lm.get("death")
         self.death_rules = [de] if de and de["kind"].startswith("rule") else []
         self.death_events = [de] if de and de["kind"] == "event" else []
@@ -366,4 +366,52 @@ def lockstep_lineage(case, out, stats):
     stats["lin_lockstep_cells"] = stats.get("lin_lockstep_cells", 0) + len(cells)
     if ref.lambda_zero_seen:
         stats["fired_lineage_lambda_zero"] = stats.get("fired_lineage_lambda_zero", 0) + 1
+    return viols
+
+
+def lockstep_single_cell(case, raw, stats):
+    """C09 lineage mode: one cell, general rules, benign linear growth, no division: every traced rate / weight vector must equal the
+    closed forms at the rule-updated state and parameters, and every row the predicted one."""
+    import numpy as np
+    from . import trace as tr
+    viols = []
+    sig = {"mode": "lineage"}
+    if raw.get("error") or raw.get("dropped") or raw.get("rows") is None:
+        return viols
+    lm = {"model": case["model"], "growth": {"kind": "rule_linear", "rate": 0.01}, "division": {"kind": "none"}, "death": None,
+          "splitter": None}
+    tape = tr.Tape(raw["recs"])
+    ref = LinRef(lm, case["grid"], tape, safe=bool(case.get("safe")))
+    x0 = {s: float(case["model"]["init"].get(s, 0)) for s in ref.species}
+    cell = Cell(0.0, 1.0, x0)
+    try:
+        ref.sim_cell(cell, list(case["grid"]))
+    except Structure:
+        stats["lin_lockstep_divergence"] = stats.get("lin_lockstep_divergence", 0) + 1
+        if ref.sem:
+            viols.append({"class": "lineage_semantic_" + ref.sem[0]["what"], "signature": sig, "detail": {"first": ref.sem[0]}})
+        return viols
+    if ref.sem:
+        viols.append({"class": "lineage_semantic_" + ref.sem[0]["what"], "signature": sig,
+                      "detail": {"first": ref.sem[0], "count": len(ref.sem)}})
+        return viols
+    if tape.remaining():
+        stats["lin_lockstep_divergence"] = stats.get("lin_lockstep_divergence", 0) + 1
+        return viols
+    order = raw["species_order"]
+    perm = [order.index(s) for s in ref.species]
+    got = raw["rows"][:, perm]
+    exp = np.array(cell.rows, dtype=float).reshape(len(cell.rows), len(perm))
+    if got.shape != exp.shape or not np.allclose(got, exp, rtol=1e-12, atol=1e-300) or \
+            not np.allclose(raw["vols"], np.array(cell.vols), rtol=1e-12, atol=0):
+        k = None
+        if got.shape == exp.shape:
+            b = np.argwhere(~np.isclose(got, exp, rtol=1e-12, atol=1e-300))
+            k = int(b[0][0]) if len(b) else None
+        viols.append({"class": "rows_differ_under_matching_protocol", "signature": sig,
+                      "detail": {"first_bad_row": k, "got": got[k].tolist() if k is not None else None,
+                                 "expected": exp[k].tolist() if k is not None else None,
+                                 "shapes": [list(got.shape), list(exp.shape)]}})
+        return viols
+    stats["lin_lockstep_match"] = stats.get("lin_lockstep_match", 0) + 1
     return viols
